@@ -274,9 +274,27 @@ class World:
         self.routers = {}
         self.facades = {}     # fid -> (rid, pattern, ms, is_resource)
         self.groups = {}      # gid -> dict(use=[], routers=[rid...], recover)
+        self.hosts = {}       # hid -> dict(doms=[...], tainted)
 
     def apply(self, toks, obs):
         op = toks[0]
+        if op == 'hosts' and len(toks) == 3:
+            if obs == 'ok':
+                self.hosts[int(toks[1])] = dict(doms=[d.lower() for d in decL(toks[2])], tainted=False)
+            else:
+                self.hosts.pop(int(toks[1]), None)
+            return
+        if op in ('hosts-add', 'hosts-del', 'hosts-icpt') and int(toks[1]) in self.hosts:
+            h = self.hosts[int(toks[1])]
+            if op == 'hosts-icpt':
+                h['tainted'] = True
+            elif obs == 'ok':
+                d = decB(toks[2]).lower()
+                if op == 'hosts-add' and d not in h['doms']:
+                    h['doms'].append(d)
+                if op == 'hosts-del':
+                    h['doms'] = [x for x in h['doms'] if x != d]
+            return
         if op == 'router' and len(toks) == 14:
             if obs == 'ok':
                 self.routers[int(toks[1])] = RouterSpec(toks)
@@ -1073,11 +1091,30 @@ def split_top(s, sep):
     out.append(cur)
     return out
 
+MATCH_ENV = dict(host=None, hosts=None)     # request Host and the World's Hosts table, for `hosts:ID` members
+
 def eval_matcher(expr, path, accept_raw, accept_params, ps):
-    """reference semantics of the bundled matchers and combinators for hosts-free expressions:
-    returns (accepted, path, params); a rejecting matcher returns its inputs unchanged"""
+    """reference semantics of the bundled matchers and combinators:
+    returns (accepted, path, params); a rejecting matcher returns its inputs unchanged.
+    `hosts:ID` is decided with the reference resolver over the tracked domains; ValueError = cannot be decided here"""
     if expr == 'any':
         return True, path, ps
+    if expr.startswith('hosts:'):
+        hs = (MATCH_ENV['hosts'] or {}).get(int(expr[6:])); host = MATCH_ENV['host']
+        if hs is None or host is None or hs['tainted'] or any(c >= 0x80 for c in host):
+            raise ValueError(expr)
+        if not all(well_formed_for_c02(d, {}) for d in hs['doms']):
+            raise ValueError(expr)
+        nh = norm_host(host)
+        if nh in (b'', b'*'):
+            return False, path, ps
+        outs = {tuple(sorted(p)) for (_, p) in adm([(d, d, ()) for d in hs['doms']], nh, {})}
+        if not outs:
+            return False, path, ps
+        if len(outs) > 1:
+            raise ValueError(expr)      # a tie the procedure leaves open
+        nps = dict(ps); nps.update(dict(next(iter(outs))))
+        return True, path, nps
     if expr.startswith('pv:'):
         param, vs = expr[3:].split(':')
         vs = [] if vs == '%-' else [norm_version(decB(x)) for x in vs.split('+')]
@@ -1154,8 +1191,9 @@ def judge_c13(ops, impl):
         first = 'unknown'; mparams = None; mpath = None
         for rid in g['routers']:
             expr = g.get('matchers', {}).get(rid)
-            if expr is None or 'hosts:' in expr or rid not in w.routers:
+            if expr is None or rid not in w.routers:
                 break
+            MATCH_ENV['host'] = decB(toks[4]); MATCH_ENV['hosts'] = w.hosts
             try:
                 ok, mp2, mq = eval_matcher(expr, path, hdrs.get(b'Accept', b''), mp, {})
             except Exception:
